@@ -3,6 +3,7 @@ CONSTANTS
  Confs <- AliasConfs
  MaxCloses = 2
  MaxOps = 0
+ Eager = FALSE
 SPECIFICATION Spec
 INVARIANTS TypeOK LocksNonNeg LocksExact MarkIsReach
 PROPERTIES O1 O2 O3 O4
